@@ -347,17 +347,71 @@ def _hoist_ifexp(s, taken, counter):
     return None
 
 
+def _ends_in_jump(stmts):
+    if not stmts:
+        return False
+    s = stmts[-1]
+    if isinstance(s, (ast.Return, ast.Raise, ast.Continue, ast.Break)):
+        return True
+    if isinstance(s, ast.If) and s.orelse:
+        return _ends_in_jump(s.body) and _ends_in_jump(s.orelse)
+    return False
+
+
+def _small_forms(fn):
+    """dict(k=v, ...) -> {"k": v, ...} (builtin dict, keyword arguments only);
+    bare `return` -> `return None`.  Same value either way."""
+    n_done = 0
+    shadow = any(isinstance(n, ast.Name) and n.id == "dict" and
+                 isinstance(n.ctx, (ast.Store, ast.Del)) for n in ast.walk(fn)) \
+        or any(a.arg == "dict" for a in ast.walk(fn) if isinstance(a, ast.arg))
+
+    class T(ast.NodeTransformer):
+        def visit_Call(self, n):
+            self.generic_visit(n)
+            if not shadow and isinstance(n.func, ast.Name) and \
+                    n.func.id == "dict" and not n.args and n.keywords and \
+                    all(k.arg is not None for k in n.keywords):
+                return ast.copy_location(ast.Dict(
+                    keys=[ast.Constant(value=k.arg) for k in n.keywords],
+                    values=[k.value for k in n.keywords]), n)
+            return n
+
+        def visit_Return(self, n):
+            self.generic_visit(n)
+            if n.value is None:
+                n.value = ast.copy_location(ast.Constant(value=None), n)
+            return n
+
+        def visit_FunctionDef(self, n):
+            if n is fn:
+                self.generic_visit(n)
+            return n
+
+        def visit_Lambda(self, n):
+            return n
+    if not any((isinstance(n, ast.Return) and n.value is None) or
+               (isinstance(n, ast.Call) and isinstance(n.func, ast.Name) and
+                n.func.id == "dict") for n in ast.walk(fn)):
+        return 0
+    T().visit(fn)
+    ast.fix_missing_locations(fn)
+    return 1
+
+
 def desugar_function(fn):
     counter = [0]
     done = [0]
     taken = _names(fn)
+    done[0] += _small_forms(fn)
+    has_ifexp = any(isinstance(n, ast.IfExp) for n in ast.walk(fn))
 
     def block(stmts):
         out = []
         stmts = list(stmts)
         i = 0
         while i < len(stmts):
-            h = _hoist_ifexp(stmts[i], taken, counter) if any(
+            h = _hoist_ifexp(stmts[i], taken, counter) if has_ifexp and any(
                 isinstance(n, ast.IfExp) for n in ast.walk(stmts[i])) and \
                 not isinstance(stmts[i], (ast.FunctionDef, ast.ClassDef,
                                           ast.AsyncFunctionDef, ast.For,
@@ -367,6 +421,16 @@ def desugar_function(fn):
                 stmts[i:i + 1] = h
                 done[0] += 1
                 continue
+            i += 1
+        # `if c: ...jump  else: REST` -> `if c: ...jump` + REST
+        i = 0
+        while i < len(stmts):
+            s0 = stmts[i]
+            if isinstance(s0, ast.If) and s0.orelse and _ends_in_jump(s0.body):
+                rest = s0.orelse
+                s0.orelse = []
+                stmts[i + 1:i + 1] = rest
+                done[0] += 1
             i += 1
         for s in stmts:
             for field in ("body", "orelse", "finalbody"):
@@ -405,7 +469,12 @@ def desugar_function(fn):
             if ef is not None:
                 s = ef
                 done[0] += 1
-            if isinstance(s, ast.Expr):
+            if isinstance(s, ast.Expr) and isinstance(s.value, ast.Call) and \
+                    isinstance(s.value.func, ast.Attribute) and \
+                    s.value.func.attr in ("update", "extend") and \
+                    len(s.value.args) == 1 and isinstance(
+                        s.value.args[0], (ast.DictComp, ast.ListComp,
+                                          ast.GeneratorExp)):
                 inside = {id(n) for n in ast.walk(s)}
                 used = {n.id for n in ast.walk(fn) if isinstance(n, ast.Name)
                         and id(n) not in inside}
